@@ -117,4 +117,8 @@ Fixpoint first_diff (a b : list Z) (i : nat) : option nat :=
   | _, _ => Some i
   end.
 
+(* running digest of a list of outputs (the harness computes the same function on the implementation's list) *)
+Definition digest (l : list Z) : Z :=
+  fold_left (fun acc v => (acc * 1000003 + v + 7) mod 2305843009213693951) l 0.
+
 Definition pairs_flat (l : list (Z * Z)) : list Z := flat_map (fun p => [fst p; snd p]) l.
